@@ -363,6 +363,22 @@ func mjpegCorpus(c *corr.Ctx) {
 	}
 	pkts = append(pkts, pk(seq, true, 0, 0, 50, []byte{1}), pk(seq+1, true, 1, 0, 50, []byte{2}), pk(seq+2, true, 0, 63, 50, nil), pk(seq+3, true, 0, 64, 50, []byte{1, 2}))
 	cu.HostileStream(c, Mjpeg, inst, pkts, true, "mjpeg-corpus-qfactor", "tables from the Q factor, short images")
+	// consecutive single-packet images with IDENTICAL type, Q and dimensions and scan data of 1..70
+	// bytes (distinct contents): a decoder that reuses anything between images of the same parameters
+	// (headers, buffers) must still hand out frames that later calls leave alone (added after seeded
+	// change C08-r6-2, which was first caught by the correspondence only)
+	for _, q := range []byte{50, 99, 127} {
+		pkts = pkts[:0]
+		for i := 0; i < 24; i++ {
+			n := 1 + (i*7)%70
+			body := make([]byte, n)
+			for j := range body {
+				body[j] = byte(0x10 + i)
+			}
+			pkts = append(pkts, pk(uint16(100+i), true, 0, 1, q, body))
+		}
+		cu.HostileStream(c, Mjpeg, inst, pkts, true, fmt.Sprintf("mjpeg-same-params-tiny-q%d", q), "consecutive tiny images with identical parameters")
+	}
 	// fixed c91360e: header-only following fragments (offset = bytes collected, no data)
 	pkts = []*rtp.Packet{pk(0, false, 0, 1, 50, []byte{0xAA})}
 	for i := 1; i <= 2000; i++ {
